@@ -278,7 +278,7 @@ def zoom_rule(ctx, p, K):
     # zoom region: bounding box of the unmasked pixels, only ever widened
     z = p.cls("autoarray.mask.mask_2d:Mask2D").lookup("zoom_region")
     txt = {norm_text(n.targets[0]): norm_text(n.value) for n in z.body_nodes() if isinstance(n, ast.Assign)}
-    ok = txt.get("where", "").replace('"', "'") == "np.array(np.where(np.invert(self.astype('bool'))))" and txt.get("(y0, x0)") == "np.amin(where, axis=1)" and txt.get("(y1, x1)") == "np.amax(where, axis=1)"
+    ok = txt.get("where", "").replace('"', "'") in ("np.array(np.where(np.invert(self.astype('bool'))))", "np.array(np.where(np.invert(self.astype(dtype='bool'))))") and txt.get("(y0, x0)") == "np.amin(where, axis=1)" and txt.get("(y1, x1)") == "np.amax(where, axis=1)"
     aug = [(norm_text(n.target), type(n.op).__name__, norm_text(n.value)) for n in z.body_nodes() if isinstance(n, ast.AugAssign)]
     widen = all((t in ("y1", "x1") and o == "Add") or (t in ("y0", "x0") and o == "Sub") for t, o, v in aug)
     rets = wire.returns_of(z)
